@@ -31,7 +31,7 @@ class C11(PropBase):
     def random_cases(self, rnd, n):
         for _ in range(n):
             c = state_case(rnd, removal=True, max_calls=9, family=rnd.choice(['int', 'int', 'str', 'ustr']))
-            c['gattr'] = rnd.choice([0, 4])
+            c['gattr'] = rnd.choice([0, 4, 4, 5, 6, 7, 8])
             yield c
 
     def program(self, case):
